@@ -18,7 +18,7 @@ import z3
 
 from ufv import num as N
 from ufv.num import Unsupported
-from ufv.opq import Opq
+from ufv.opq import Opq, OpqDep
 
 import ufl.classes as C
 from ufl.core.multiindex import FixedIndex, Index
@@ -125,6 +125,7 @@ class World:
         self.side_of_facet = None    # '+' / '-' or None
         self.valuation = valuation   # concrete mode: callable(symname) -> number
         self.terminal_hook = None    # callable(world, e, comp, env) -> value | NotImplemented
+        self.opq_hook = None         # callable(world, e, comp, env) -> value | NotImplemented (defines opaque operands)
         self.extra_axioms = []
 
     # -- bookkeeping
@@ -238,7 +239,11 @@ def den(w: World, e, comp=(), env=None):
     env = env or {}
     comp = tuple(comp)
     d = lambda x, c=(), en=None: den(w, x, c, env if en is None else en)  # noqa: E731
-    if isinstance(e, Opq):
+    if isinstance(e, (Opq, OpqDep)):
+        if w.opq_hook is not None:
+            r = w.opq_hook(w, e, comp, env)
+            if r is not NotImplemented:
+                return r
         return w.opq(e, comp, env)
     if len(comp) != len(e.ufl_shape):
         raise Unsupported(f"component {comp} for shape {e.ufl_shape} of {type(e).__name__}")
